@@ -17,7 +17,7 @@ GARBAGE = b"\x0a\xff\x01"
 def device_message(m: dict) -> tuple[int, bytes]:
     k = m["k"]
     if k == "hello":
-        return msg_id("HelloResponse"), pb("HelloResponse", api_version_major=m["major"], api_version_minor=10, name=m["name"], server_info="sim").SerializeToString()
+        return msg_id("HelloResponse"), pb("HelloResponse", api_version_major=m["major"], api_version_minor=m.get("minor", 10), name=m["name"], server_info="sim").SerializeToString()
     if k == "connect":
         return msg_id("ConnectResponse"), pb("ConnectResponse", invalid_password=m["invalid"]).SerializeToString()
     if k == "discreq":
